@@ -31,13 +31,14 @@ const (
 	c11KMutex
 	c11KEvent
 	c11KFieldUnit
+	c11KDataRegion
 )
 
-var c11KindNames = []string{"Scope", "Device", "Processor", "PowerResource", "ThermalZone", "Method", "Name", "OpRegion", "Mutex", "Event", "FieldUnit"}
+var c11KindNames = []string{"Scope", "Device", "Processor", "PowerResource", "ThermalZone", "Method", "Name", "OpRegion", "Mutex", "Event", "FieldUnit", "DataRegion"}
 
 var c11KindOpcode = map[int]uint16{
 	c11KDevice: pOpDevice, c11KProcessor: pOpProcessor, c11KPowerRes: pOpPowerRes, c11KThermalZone: pOpThermalZone,
-	c11KMethod: pOpMethod, c11KName: pOpName, c11KOpRegion: pOpOpRegion, c11KMutex: pOpMutex, c11KEvent: pOpEvent, c11KFieldUnit: pOpIntNamedField,
+	c11KMethod: pOpMethod, c11KName: pOpName, c11KOpRegion: pOpOpRegion, c11KMutex: pOpMutex, c11KEvent: pOpEvent, c11KFieldUnit: pOpIntNamedField, c11KDataRegion: pOpDataRegion,
 }
 
 func c11IsContainer(k int) bool {
@@ -83,6 +84,8 @@ type c11Obj struct {
 	forward   bool
 	methodLocal bool // declared inside a method body
 	isIndexUnit bool // used as the index unit of an IndexField
+	isBankUnit  bool // declared by a BankField (created late, in the deferred pass)
+	dstr        []*c11Expr // DataRegion: signature, OEM id, OEM table id
 }
 
 type c11FieldInfo struct {
@@ -97,7 +100,8 @@ type c11FieldInfo struct {
 
 // c11Item is one lexical element of a term list outside methods.
 type c11Item struct {
-	kind   int // 0 object declaration, 1 Scope directive, 2 Field, 3 IndexField
+	kind   int // 0 object declaration, 1 Scope directive, 2 Field, 3 IndexField, 4 BankField
+	bankVal *c11Expr // BankField: bank value
 	obj    *c11Obj
 	target *c11Obj  // Scope directive target / Field region
 	index  *c11Obj  // IndexField: index field unit
@@ -269,6 +273,8 @@ var c11Ops = []*c11OpSpec{
 	{"CreateQWordField", pOpCreateQWordField, "TTN", false, true},
 	{"CreateField", pOpCreateField, "TTTN", false, true},
 	{"CondRefOf", pOpCondRefOf, "SS", true, true},
+	{"Load", pOpLoad, "NS", false, true},
+	{"Unload", pOpUnload, "S", false, true},
 }
 
 func c11OpByName(n string) *c11OpSpec {
@@ -528,6 +534,16 @@ func (it *c11Item) emit(out *[]byte) {
 		*out = append(*out, c11OpBytes(pOpField)...)
 		*out = append(*out, c11PkgLenEnc(len(body), it.pkgEnc)...)
 		*out = append(*out, body...)
+	case 4: // BankField
+		var body []byte
+		body = append(body, it.written...)
+		body = append(body, it.written2...)
+		it.bankVal.emit(&body)
+		body = append(body, it.fflags)
+		c11EmitFieldList(it.fields, &body)
+		*out = append(*out, c11OpBytes(pOpBankField)...)
+		*out = append(*out, c11PkgLenEnc(len(body), it.pkgEnc)...)
+		*out = append(*out, body...)
 	case 3: // IndexField
 		var body []byte
 		body = append(body, it.written...)
@@ -561,6 +577,12 @@ func (o *c11Obj) emitDecl(out *[]byte, it *c11Item) {
 		*out = append(*out, o.space)
 		o.roff.emit(out)
 		o.rlen.emit(out)
+	case c11KDataRegion:
+		*out = append(*out, c11OpBytes(pOpDataRegion)...)
+		*out = append(*out, o.written...)
+		for _, d := range o.dstr {
+			d.emit(out)
+		}
 	case c11KMethod:
 		var body []byte
 		body = append(body, o.written...)
@@ -697,7 +719,7 @@ func c11AslItems(items []*c11Item, ind string, sb *strings.Builder) {
 			fmt.Fprintf(sb, "%sScope(%s) {   // -> %s\n", ind, c11NameStr(it.written), it.target.path())
 			c11AslItems(it.items, ind+"  ", sb)
 			fmt.Fprintf(sb, "%s}\n", ind)
-		case 2, 3:
+		case 2, 3, 4:
 			var f []string
 			for _, fe := range it.fields {
 				switch fe.kind {
@@ -718,6 +740,9 @@ func c11AslItems(items []*c11Item, ind string, sb *strings.Builder) {
 			k := "Field"
 			if it.kind == 3 {
 				k = "IndexField"
+			}
+			if it.kind == 4 {
+				k = "BankField[" + it.bankVal.asl() + "]"
 			}
 			fmt.Fprintf(sb, "%s%s(%s %s, flags %#x){%s}\n", ind, k, c11NameStr(it.written), c11NameStr(it.written2), it.fflags, strings.Join(f, "; "))
 		default:
